@@ -110,6 +110,13 @@ fn axes_for(rng: &mut Rng, spdc: &SPDC, n: usize, mode: usize) -> ((f64, f64, us
       let st = spdc.optimum_range(n).as_steps();
       ((*(st.0 .0 / (RAD / S)), *(st.0 .1 / (RAD / S)), n), (*(st.1 .0 / (RAD / S)), *(st.1 .1 / (RAD / S)), n))
     }
+    // strongly asymmetric idler window around the same centre: the auxiliary grids outweigh the main one (finding F10 territory)
+    4 => {
+      let d = rng.range(2.0e-3, 3.0e-3) * ws;
+      let a = rng.range(0.55, 0.8);
+      let b = rng.range(1.2, 1.5);
+      ((ws - d, ws + d, n), (wi - a * d, wi + b * d, n))
+    }
     // off-centre, overlapping but unequal axes
     _ => {
       let a = rng.range(-1.0, 1.0) * d;
@@ -119,7 +126,7 @@ fn axes_for(rng: &mut Rng, spdc: &SPDC, n: usize, mode: usize) -> ((f64, f64, us
   }
 }
 
-fn single_cases(rng: &mut Rng, ncases: usize, max_side: usize) {
+fn single_cases(rng: &mut Rng, ncases: usize, max_side: usize, forced: &[usize]) {
   let list = setups();
   let integrator = Integrator::default();
   for case in 0..ncases {
@@ -131,13 +138,13 @@ fn single_cases(rng: &mut Rng, ncases: usize, max_side: usize) {
         continue;
       }
     };
-    let n = if case < 2 * list.len() { 2 + rng.below(3) } else { 2 + rng.below(max_side - 1) };
-    let mode = (case / list.len()) % 4;
+    let n = if case < forced.len() { forced[case] } else if case < 2 * list.len() { 2 + rng.below(3) } else { 2 + rng.below(max_side - 1) };
+    let mode = (case / list.len()) % 5;
     let (ls, li) = axes_for(rng, &spdc, n, mode);
     let range = space(ls, li);
     let d = 0.5 * (ls.1 - ls.0);
     let span = rng.log_range(0.2, 3.0) * std::f64::consts::PI / d;
-    let taus: Vec<f64> = vec![0.0, rng.range(-1.0, 1.0) * span, rng.range(-1.0, 1.0) * span];
+    let taus: Vec<f64> = vec![0.0, rng.range(-1.0, 1.0) * span, rng.range(-1.0, 1.0) * span, rng.range(-4.0, 4.0) * span, rng.range(-0.2, 0.2) * span];
     let (s1, t1) = (spdc.clone(), taus.clone());
     let series = guarded(move || s1.hom_two_source_rate_series(t1.iter().map(|t| *t * S), range, integrator));
     let s2 = spdc.clone();
@@ -145,13 +152,21 @@ fn single_cases(rng: &mut Rng, ncases: usize, max_side: usize) {
     let sp = spdc.joint_spectrum(integrator);
     let arrays = eight(&sp, &sp, ls, li, ls, li);
     let sv = sv_sums(&arrays[0], n);
+    // jsa_range (parallel producer) against sequential pointwise jsa on the same Steps2D
+    let pointwise: Vec<C> = range.as_steps().into_iter().map(|(a, b)| sp.jsa(a, b)).collect();
+    let scale = arrays[0].iter().map(|z| z.norm()).fold(0.0f64, f64::max);
+    let jsa_diff = if pointwise.len() == arrays[0].len() {
+      arrays[0].iter().zip(pointwise.iter()).map(|(x, y)| (x - y).norm()).fold(0.0f64, f64::max) / scale.max(f64::MIN_POSITIVE)
+    } else {
+      f64::INFINITY
+    };
     let free = free_function_obs(rng, &spdc, range, &taus, integrator);
     // the exchanged twin on the exchanged ranges (C10_purity_exchange): V_ss <-> V_ii
     let twin = spdc.clone().with_swapped_signal_idler();
     let range_sw = space(li, ls);
     let vis_twin = vis_json(guarded(move || twin.hom_two_source_visibilities(range_sw, integrator)));
     emit(json!({
-      "kind": "single", "setup": name, "config": cfg, "n": n, "mode": mode, "free": free, "vis_twin": vis_twin,
+      "kind": "single", "setup": name, "config": cfg, "n": n, "mode": mode, "free": free, "vis_twin": vis_twin, "jsa_pointwise_rel_diff": fx(jsa_diff),
       "ls": [fx(ls.0), fx(ls.1)], "li": [fx(li.0), fx(li.1)], "taus": fxs(&taus),
       "series": vec3(series),
       "vis": match vis {
@@ -309,7 +324,9 @@ pub fn run(args: &[String]) {
   let max_side = arg_u64(args, 2, 10) as usize;
   let npairs = arg_u64(args, 3, 8) as usize;
   let mut rng = Rng::new(seed);
-  single_cases(&mut rng, ncases, max_side);
+  let nforced = arg_u64(args, 5, 0) as usize;
+  let forced: Vec<usize> = [16usize, 24, 20, 12].iter().cloned().take(nforced).collect();
+  single_cases(&mut rng, ncases, max_side, &forced);
   pair_cases(&mut rng, npairs, max_side);
   let npyth = arg_u64(args, 4, 0) as usize;
   pyth_cases(&mut rng, npyth);
